@@ -367,6 +367,24 @@ func (r *c09Rig) run(plan c09Plan, tag string) c09Outcome {
 				cid := id + "-p"
 				wire = fmt.Sprintf("MESSAGE sip:svc.test SIP/2.0\r\nVia: %s;branch=z9hG4bK%s;rport\r\nFrom: <sip:c%d@client.example>;tag=f\r\nTo: <sip:svc@svc.test>\r\nCall-ID: %s\r\nCSeq: %d MESSAGE\r\nContent-Length: %d\r\n\r\n%s", via, cid, ci, cid, j+1, len(c09Body(cid)), c09Body(cid)) + wire
 			}
+			if j%4 == 1 {
+				// ahead of it, a request that can go nowhere: its first Route entry carries
+				// the listener's port and a name nobody knows (never seen before) - the
+				// proxy asks its host table and the system resolver whether that is
+				// itself, then fails to reach it and drops the request; nothing answers
+				lp := l.UDPPort
+				if tcp {
+					lp = l.TCPPort
+				}
+				xid := id + "-x"
+				probe := fmt.Sprintf("OPTIONS sip:x@elsewhere.example SIP/2.0\r\nVia: %s;branch=z9hG4bK%s\r\nRoute: <sip:nohost-%s.invalid:%d;lr>\r\nFrom: <sip:c%d@client.example>;tag=f\r\nTo: <sip:x@elsewhere.example>\r\nCall-ID: %s\r\nCSeq: 1 OPTIONS\r\nContent-Length: 0\r\n\r\n", via, xid, xid, lp, ci, xid)
+				if tcp {
+					wire = probe + wire
+				} else if err := send([]byte(probe)); err != nil {
+					setFail("client %d: send failed: %v", ci, err)
+					return
+				}
+			}
 			t := txn{id: id, entry: entry, want: want, s: r.tick()}
 			if err := send([]byte(wire)); err != nil {
 				setFail("client %d: send failed: %v", ci, err)
@@ -478,6 +496,11 @@ func (r *c09Rig) run(plan c09Plan, tag string) c09Outcome {
 		pool := NewByteArrayPool(8, 1024)
 		mgr := NewClientTransportMgr(func(net.Conn) {})
 		res := &DynamicHostResolver{hostIPs: map[string]*AddressWithCallback{}}
+		// a host table as every listener's loop of a service consults it, for names in
+		// the table, literals, and names only the (disabled) system resolver could know
+		table := NewPreConfigHostResolver()
+		table.AddHostIP("hop-a.hammer.test", "127.0.0.101")
+		table.AddHostIP("hop-b.hammer.test", "127.0.0.102")
 		for h := 0; h < 3; h++ {
 			bg.Add(1)
 			go func(h int) {
@@ -502,6 +525,10 @@ func (r *c09Rig) run(plan c09Plan, tag string) c09Outcome {
 						mgr.lastCleanTime = time.Now().Unix() - 61
 						mgr.Unlock()
 						V.ExtraAdd("transport_table_sweeps_forced", 1)
+					}
+					table.GetIp([]string{"hop-a.hammer.test", "127.0.0.103", "hop-b.hammer.test"}[i%3])
+					if i%8 == 0 {
+						table.GetIp(fmt.Sprintf("unknown-%d-%d.hammer.invalid", h, i%64))
 					}
 					name := fmt.Sprintf("hammer-%d.verif.invalid", i%3)
 					res.ResolveHost(name, func(string, []string, []string) {})
@@ -592,7 +619,7 @@ func (r *c09Rig) run(plan c09Plan, tag string) c09Outcome {
 }
 
 func TestC09(t *testing.T) {
-	V.Rule("lab under the race detector: rapid draws load plans - GOMAXPROCS in {2,4,8,16}, 2-12 UDP and 1-8 TCP stop-and-wait clients spread over three listen entries of one service (shared learned-route table; UDP and TCP listeners; UDP, TCP and dynamically resolved backends), 30-250 transactions each with unique identifiers in a fixed mix (OPTIONS - every other one to a To host never seen before -, dialog-creating INVITE answered with a To-tag, in-dialog INFO of an unknown dialog, MESSAGE with one of two static routes whose next hops are host-table names), backends that answer every request, optional membership churn through the resolver's addressResolved entry point, sparse (a change every 70-110 ms) or fast (every 100-400 us), at least one stable backend per listen entry, optional hammering of ByteArrayPool, ClientTransportMgr and DynamicHostResolver from three goroutines. Oracle: no race report, no fatal error or panic, every client finishes (no transaction waits more than 20 s unless a membership change was in flight), every request reached exactly one backend of the listen entry it was sent to (at most one while a change was in flight), every response returned to the client that sent the request, every request body (a function of its Call-ID; TCP clients pipeline a companion request now and then) arrived intact. non-trivial = plan with >= 2 listeners receiving simultaneously and >= 1 membership change during traffic; distinct by plan")
+	V.Rule("lab under the race detector: rapid draws load plans - GOMAXPROCS in {2,4,8,16}, 2-12 UDP and 1-8 TCP stop-and-wait clients spread over three listen entries of one service (shared learned-route table; UDP and TCP listeners; UDP, TCP and dynamically resolved backends), 30-250 transactions each with unique identifiers in a fixed mix (OPTIONS - every other one to a To host never seen before -, dialog-creating INVITE answered with a To-tag, in-dialog INFO of an unknown dialog, MESSAGE with one of two static routes whose next hops are host-table names), backends that answer every request, optional membership churn through the resolver's addressResolved entry point, sparse (a change every 70-110 ms) or fast (every 100-400 us), at least one stable backend per listen entry, every fourth transaction preceded by a request whose first Route entry names an unknown host with the listener's port (looked up, unreachable, dropped), optional hammering of ByteArrayPool, ClientTransportMgr, DynamicHostResolver and a host table from three goroutines. Oracle: no race report, no fatal error or panic, every client finishes (no transaction waits more than 20 s unless a membership change was in flight), every request reached exactly one backend of the listen entry it was sent to (at most one while a change was in flight), every response returned to the client that sent the request, every request body (a function of its Call-ID; TCP clients pipeline a companion request now and then) arrived intact. non-trivial = plan with >= 2 listeners receiving simultaneously and >= 1 membership change during traffic; distinct by plan")
 	V.Assume("schedules are sampled by the Go scheduler under the drawn plan, not enumerated: this check can expose races, never show their absence")
 	V.Require("engine:bin (-race binary under load)", "plan with fast churn", "plan with churn", "plan with hammering", ">=2 listeners in parallel", "tcp and udp clients together")
 	rig, err := newC09Rig(false)
